@@ -2,7 +2,5 @@
 def LaneletNetwork_create_from_lanelet_network (lanelet_network : CR.Refs.Net) (keep : CR.Refs.Id → Bool) (cleanup_ids : Bool) : CR.Res CR.Refs.Net :=
   let sel := LaneletNetwork_cut_select lanelet_network keep
   let new_lanelet_network := lanelet_network.inters.foldl (fun new_lanelet_network (old_intersection : CR.Refs.Intersection) =>
-      match LaneletNetwork_cut_intersection sel.1 old_intersection with
-      | none => new_lanelet_network
-      | some new_intersection => CR.PyR.addInter new_lanelet_network new_intersection) CR.PyR.emptyNet
+      CR.PyR.addInterO new_lanelet_network (LaneletNetwork_cut_intersection sel.1 old_intersection)) CR.PyR.emptyNet
   LaneletNetwork_cut_assemble lanelet_network new_lanelet_network sel.1 sel.2.1 sel.2.2 cleanup_ids
